@@ -77,11 +77,38 @@ func (fs *FileSystem) Store(bom *sbom.Document, opts *StoreOptions) error {
 		return err
 	}
 
-	if opts.NoClobber && util.Exists(filepath.Join(fs.Options.Path, filename)) {
+	finalPath := filepath.Join(fs.Options.Path, filename)
+	if opts.NoClobber && util.Exists(finalPath) {
 		return fmt.Errorf("there is already an entry for the specified document (and NoClobber = true)")
 	}
 
-	if err := os.WriteFile(filepath.Join(fs.Options.Path, filename), out, os.FileMode(0o644)); err != nil {
+	// Write the data to a temporary file in the same directory and rename it
+	// into place: the entry is replaced atomically, so a crash never leaves a
+	// truncated or partially written document behind.
+	tmp, err := os.CreateTemp(fs.Options.Path, filename+".*.tmp")
+	if err != nil {
+		return fmt.Errorf("creating temporary file: %w", err)
+	}
+	tmpPath := tmp.Name()
+
+	if _, err := tmp.Write(out); err != nil {
+		tmp.Close()        //nolint:errcheck,gosec // already failing
+		os.Remove(tmpPath) //nolint:errcheck,gosec // best effort cleanup
+		return fmt.Errorf("writing data to disk: %w", err)
+	}
+
+	if err := tmp.Close(); err != nil {
+		os.Remove(tmpPath) //nolint:errcheck,gosec // best effort cleanup
+		return fmt.Errorf("writing data to disk: %w", err)
+	}
+
+	if err := os.Chmod(tmpPath, os.FileMode(0o644)); err != nil {
+		os.Remove(tmpPath) //nolint:errcheck,gosec // best effort cleanup
+		return fmt.Errorf("setting permissions of data file: %w", err)
+	}
+
+	if err := os.Rename(tmpPath, finalPath); err != nil {
+		os.Remove(tmpPath) //nolint:errcheck,gosec // best effort cleanup
 		return fmt.Errorf("writing data to disk: %w", err)
 	}
 
